@@ -538,3 +538,59 @@ func whose(b []byte, objs []*fsobj.Obj) string {
 	}
 	return ""
 }
+
+// ---------------------------------------------------------------- one traced run (test side)
+
+// Run is one prepared + executed helper run.
+type Run struct {
+	Spec    *Spec
+	Dir     string
+	Trace   *sysinject.Result
+	Results *Results
+}
+
+// Cleanup removes the run's directory.
+func (r *Run) Cleanup() {
+	if r != nil && r.Dir != "" {
+		_ = os.RemoveAll(r.Dir)
+	}
+}
+
+// Execute prepares a fresh tree (with the objects of pre stored), runs the helper under strace with the given
+// injections and decodes its result file. The error is a harness problem, never a helper failure.
+func Execute(s Spec, pre []int, inj []sysinject.Inject, timeout time.Duration) (*Run, error) {
+	dir, err := os.MkdirTemp("", "fsrun-")
+	if err != nil {
+		return nil, err
+	}
+	r := &Run{Spec: &s, Dir: dir}
+	specPath, err := Prepare(&s, dir, pre)
+	if err != nil {
+		r.Cleanup()
+		return nil, fmt.Errorf("prepare: %w", err)
+	}
+	r.Trace, err = sysinject.Exec(sysinject.Cmd{Mode: Mode, SpecPath: specPath, Injects: inj, WorkDir: dir, Timeout: timeout})
+	if err != nil {
+		r.Cleanup()
+		return nil, err
+	}
+	r.Results, err = ReadResults(s.ResultPath, s.NumOps())
+	if err != nil {
+		r.Results = &Results{Ops: make([]Record, s.NumOps())}
+	}
+	return r, nil
+}
+
+// UnderRoot reports whether a traced event addresses the tree of the run: its fd annotation or one of its path
+// arguments lies under Spec.Root, or it is a linkat from /proc/self/fd/N (the O_TMPFILE link idiom).
+func (r *Run) UnderRoot(e sysinject.Event) bool {
+	if p := e.FdPath(); p != "" && strings.HasPrefix(p, r.Spec.Root) {
+		return true
+	}
+	for _, p := range e.Paths() {
+		if strings.HasPrefix(p, r.Spec.Root) {
+			return true
+		}
+	}
+	return false
+}
